@@ -17,7 +17,8 @@ MODULES = []
 EDITS = ['t.name', 't.schema', 't.alias', 't.note', 't.color', 'c.name', 'c.type', 'c.type_enum', 'c.flags', 'c.default',
          'c.note', 'e.name', 'e.schema', 'e.add_item', 'e.item_name', 'r.type', 'r.inline', 'r.name', 'r.actions',
          't.add_column', 't.add_index', 't.delete_index', 'g.name', 'g.color', 'p.name', 'p.items', 's.text',
-         'db.allow_properties', 'ix.flags', 'ix.name', 't.twin_index', 't.delete_last_index', 't.delete_last_index']
+         'db.allow_properties', 'ix.flags', 'ix.name', 't.twin_index', 't.delete_last_index', 't.delete_last_index',
+         't.note_text', 'c.note_text', 'ix.note_text']
 
 
 def apply_edit(rng, db, hd, kind, counter):
@@ -44,6 +45,11 @@ def apply_edit(rng, db, hd, kind, counter):
             k = rng.randint(1, min(2, len(t.columns)))
             t.add_index(Index(rng.sample(t.columns, k), name=rng.choice([None, fresh('idx')]), unique=rng.random() < 0.5,
                               pk=rng.random() < 0.2))
+        elif kind == 't.note_text':
+            # the text of the existing Note object, changed in place (not a new Note): whatever is stored is what renders
+            t.note.text = rng.choice(['plain', '  indented', '\n\nblank lines around\n\n', '    a\n    b', 'tail  ', ''])
+        elif kind == 'ix.note_text' and t.indexes:
+            rng.choice(t.indexes).note.text = rng.choice(['plain', '  indented', '\nlead', ''])
         elif kind == 't.twin_index' and t.indexes:
             # an index that differs from an existing one in a single attribute (note, comment, name, a flag)
             src = rng.choice(t.indexes)
@@ -75,6 +81,8 @@ def apply_edit(rng, db, hd, kind, counter):
             c.type = rng.choice(['bigint', 'varchar(10)', 'uuid'])
         elif kind == 'c.type_enum' and E:
             c.type = rng.choice(E)
+        elif kind == 'c.note_text':
+            c.note.text = rng.choice(['plain', '  indented', '\n\nblank lines around\n', '    a\n    b', ''])
         elif kind == 'c.flags':
             f = rng.choice(['pk', 'unique', 'not_null', 'autoinc'])
             setattr(c, f, not getattr(c, f))
